@@ -73,7 +73,12 @@ func VerifC05_E2E(ver, mt, c1, c2, where, nFRM int) {
 	mp.FHDR.FCnt = fcnt
 	mp.FHDR.FCtrl.ADR = verifNondetBool("adr")
 	mp.FHDR.FCtrl.ACK = verifNondetBool("ack")
-	if where == 0 {
+	if where == 2 { // MAC commands in FOpts, FPort > 0 present, no FRMPayload bytes
+		where, nFRM = 0, 0
+		mp.FHDR.FOpts = cmds
+		p := port
+		mp.FPort = &p
+	} else if where == 0 {
 		mp.FHDR.FOpts = cmds
 		if nFRM > 0 {
 			p := port
